@@ -184,18 +184,22 @@ def build_machine():
                                mirror_rate=plan.get("mirror_rate", 32), sympy_seed=plan.get("sympy_seed", 0))
 
         @initialize(idx=st.integers(0, len(pool) - 1), name=st.sampled_from(NAMES), git=st.sampled_from([True, True, True, False]),
-                    cfg_where=st.sampled_from([None, "explicit", "explicit", "pyproject"]), cfg=cfg_strategy)
-        def start(self, idx, name, git, cfg_where, cfg):
+                    cfg_where=st.sampled_from([None, "explicit", "explicit", "pyproject"]), cfg=cfg_strategy,
+                    with_cellml=st.sampled_from([False, False, False, True]))
+        def start(self, idx, name, git, cfg_where, cfg, with_cellml):
             if self.noop:
                 return
             self.world.put_model(name, ".", "ode", idx)
+            if with_cellml:
+                # a quarter of the sessions also start with a CellML file (the less travelled path)
+                self.world.put_model(name, ".", "cellml", 0)
             if git:
                 self.world.git_marker(True)
             if cfg_where:
                 self.world.put_config(cfg_where, cfg, False)
 
         @rule(name=st.sampled_from(NAMES), where=st.sampled_from([".", ".", "sub"]),
-              kind=st.sampled_from(["ode", "ode", "ode", "ode", "cellml"] if heavy else ["ode"] * 9 + ["cellml"]),
+              kind=st.sampled_from(["ode", "ode", "ode", "ode", "cellml"] if heavy else ["ode"] * 6 + ["cellml"]),
               idx=st.integers(0, len(pool) - 1))
         def put_model(self, name, where, kind, idx):
             if self.noop:
@@ -228,6 +232,41 @@ def build_machine():
             pool_ = models if (models and pick % 3 != 0) else files
             if pool_:
                 self.world.damage(pool_[(pick // 3) % len(pool_)], fault, k)
+
+        @precondition(lambda self: faults_on)
+        @rule(pick=st.integers(0, 999), fault=st.sampled_from(DAMAGE), k=st.integers(0, 20000), inv=invocation())
+        def damage_then_convert(self, pick, fault, k, inv):
+            """A state fault on a model file immediately followed by the conversion that
+            consumes that very file (faults placed right before the operation they hit)."""
+            if self.noop:
+                return
+            models = sorted(str(p.relative_to(self.world.proj)) for p in self.world.proj.rglob("*")
+                            if p.is_file() and p.suffix in (".ode", ".cellml") and ".git" not in p.parts)
+            if not models:
+                return
+            # CellML files first when there are any: the less travelled path
+            cells = [m for m in models if m.endswith(".cellml")]
+            rel = (cells if (cells and pick % 2 == 0) else models)[(pick // 2) % len(cells if (cells and pick % 2 == 0) else models)]
+            try:
+                self.world.damage(rel, fault, k)
+                op = resolve(self.world, dict(inv, missing=False, wrong_kind=False))
+                if rel.endswith(".cellml"):
+                    op["cmd"] = "cellml2ode" if k % 3 else "convert"
+                    op["opts"] = {kk: vv for kk, vv in op["opts"].items() if kk in ("outname", "verbose")}
+                    if op["cmd"] == "convert":
+                        op["opts"]["to"] = ".ode"
+                    elif inv.get("cfgpick"):
+                        op["opts"]["config"] = inv["cfgpick"]
+                elif op["cmd"] == "cellml2ode":
+                    op["cmd"] = "ode2py"
+                op["fname"] = os.path.relpath(self.world.proj / rel, self.world.proj / "sub" if op["cwd"] == "sub" else self.world.proj)
+                self.world.count("damage_then_convert")
+                self.world.invoke(op)
+            except AssertionError:
+                raise
+            except Exception as e:
+                CTX.harness_error = "%s: %s\n%s" % (type(e).__name__, e, traceback.format_exc()[-1500:])
+                self.noop = True
 
         @precondition(lambda self: faults_on and stub_present)
         @rule(mode=st.sampled_from(["ok", "fail", "partial", "garbage"]))
